@@ -54,9 +54,11 @@ type Conn struct {
 	// SASL internals
 	saslRemainingData []byte
 
-	// CancelFunc and WaitGroup for goroutines
+	// CancelFunc and WaitGroup for goroutines, and the generation of the
+	// connection they belong to (incremented for every connection attempt)
 	die context.CancelFunc
 	wg  sync.WaitGroup
+	gen uint64
 
 	// Internal counters for flood protection
 	badness  time.Duration
@@ -333,6 +335,7 @@ func (conn *Conn) initialise() {
 	conn.in = make(chan *Line, 32)
 	conn.out = make(chan string, 32)
 	conn.die = nil
+	conn.gen++
 	if conn.st != nil {
 		conn.st.Wipe()
 	}
@@ -484,6 +487,7 @@ func hasPort(s string) bool {
 // It shuttles data from the output channel to write(), and is killed
 // when the context is cancelled.
 func (conn *Conn) send(ctx context.Context) {
+	gen := conn.gen
 	for {
 		select {
 		case line := <-conn.out:
@@ -491,7 +495,7 @@ func (conn *Conn) send(ctx context.Context) {
 				logging.Error("irc.send(): %s", err.Error())
 				// We can't defer this, because Close() waits for it.
 				conn.wg.Done()
-				conn.Close()
+				conn.closeGen(gen)
 				return
 			}
 		case <-ctx.Done():
@@ -500,7 +504,7 @@ func (conn *Conn) send(ctx context.Context) {
 			// blocked on the output queue) and bail out
 			// We can't defer this, because Close() waits for it.
 			conn.wg.Done()
-			conn.Close()
+			conn.closeGen(gen)
 			return
 		}
 	}
@@ -510,6 +514,7 @@ func (conn *Conn) send(ctx context.Context) {
 // It receives "\r\n" terminated lines from the server, parses them into
 // Lines, and sends them to the input channel.
 func (conn *Conn) recv() {
+	gen := conn.gen
 	for {
 		s, err := conn.io.ReadString('\n')
 		if err != nil {
@@ -518,7 +523,7 @@ func (conn *Conn) recv() {
 			}
 			// We can't defer this, because Close() waits for it.
 			conn.wg.Done()
-			conn.Close()
+			conn.closeGen(gen)
 			return
 		}
 		s = strings.Trim(s, "\r\n")
@@ -554,6 +559,7 @@ func (conn *Conn) ping(ctx context.Context) {
 // It pulls Lines from the input channel and dispatches them to any
 // handlers that have been registered for that IRC verb.
 func (conn *Conn) runLoop(ctx context.Context) {
+	gen := conn.gen
 	for {
 		select {
 		case line := <-conn.in:
@@ -564,7 +570,7 @@ func (conn *Conn) runLoop(ctx context.Context) {
 
 			// We can't defer this, because Close() waits for it.
 			conn.wg.Done()
-			conn.Close()
+			conn.closeGen(gen)
 			return
 		}
 	}
@@ -618,10 +624,19 @@ func (conn *Conn) rateLimit(chars int) time.Duration {
 // the sending or receiving goroutines encounter an error.
 // It may also be used to forcibly shut down the connection to the server.
 func (conn *Conn) Close() error {
+	return conn.closeGen(0)
+}
+
+// closeGen is Close for the goroutines of one connection. They pass the
+// generation of the connection they were started for, so that the Close()
+// one of them issues late -- after the client has already been disconnected
+// and connected again -- does not tear down the new connection.
+// Generation 0 closes whichever connection is current.
+func (conn *Conn) closeGen(gen uint64) error {
 	// Guard against double-call of Close() if we get an error in send()
 	// as calling sock.Close() will cause recv() to receive EOF in readstring()
 	conn.mu.Lock()
-	if !conn.connected {
+	if !conn.connected || (gen != 0 && gen != conn.gen) {
 		conn.mu.Unlock()
 		return nil
 	}
